@@ -35,11 +35,11 @@ s = open(p).read()
 a = s.index("<!-- seeded-table-begin -->"); b = s.index("<!-- seeded-table-end -->") + len("<!-- seeded-table-end -->")
 tail = s[b:]
 tail = re.sub(r"\n\nOf the \d+ seeded changes.*?as stated\.", "", tail, flags=re.S)
-rounds = 20
+rounds = 21
 summary = (f"\n\nOf the {n} seeded changes ({rounds} rounds of 19 authors; later rounds were told what earlier rounds had done and asked for something different in kind - "
  "round 3 for small silent effects at boundaries and in rare combinations, round 4 for defects that depend on a relationship between values, an order of three or more events, or state left behind, "
- "round 5 for rarely used accessors, old-style files, second/third elements and asymmetries between code paths that should agree, round 6 for histories of calls and loads, concurrency, build-configuration dependence and three-condition coincidences, round 7 for inputs larger or more complex than small generators produce and for thresholds hidden in the code, round 8 free-hand - most of its authors chose first-use races, caches shared between threads, logging side effects and error paths, round 9 for realistic maintenance commits (optimisations, storage migrations, de-duplication, tolerance for third-party files, new accessors) with one honest oversight, round 10 likewise (error-handling refactors, lazy decoding, narrower integer types, new format fields such as the cel z-index, de-duplicated decoders), round 11 free-hand with two suggestions (code that is right for everything accepted today but wrong for what it newly accepts; triggers that are quantities rather than shapes), round 12 for small boring commits (clippy-style rewrites, hoisted invariants, merged conditions, reordered statements, a changed default), round 13 concentrated on the properties whose checks had missed most often (C16 x4, C09 x4, C04 x4, C12 x3, C17 x2, C18 x2, each author with an assigned area), round 14 one more author for each of the other thirteen properties and two each for C04, C12 and C16 with briefs such as 'two cooperating fields', 'unbounded work', 'debug/release differences other than overflow', round 15 free-hand again with a preference for silent effects triggered by a combination of ordinary conditions, round 16 asked for whatever file, function, format field or accessor the earlier changes had not touched, round 17 for commits forced by a dependency or toolchain upgrade, an issue report or a tidy-up PR, round 18 for the public API surface (trait impls, protocols, derived values) and interactions between two features, round 19 for a value computed in two places that must agree, something wrong only for the second or later item of a kind, or a slip in reading two adjacent fields, round 20 for the exact edge of a documented range, a helper shared by two callers and right for one, or a fast path that skips a step), "
- f"{init} were detected by the checks as they stood when the change arrived. {n - init - bydesign} were missed at first (one reported only as inconclusive) and each led to the strengthening named in the last column; "
+ "round 5 for rarely used accessors, old-style files, second/third elements and asymmetries between code paths that should agree, round 6 for histories of calls and loads, concurrency, build-configuration dependence and three-condition coincidences, round 7 for inputs larger or more complex than small generators produce and for thresholds hidden in the code, round 8 free-hand - most of its authors chose first-use races, caches shared between threads, logging side effects and error paths, round 9 for realistic maintenance commits (optimisations, storage migrations, de-duplication, tolerance for third-party files, new accessors) with one honest oversight, round 10 likewise (error-handling refactors, lazy decoding, narrower integer types, new format fields such as the cel z-index, de-duplicated decoders), round 11 free-hand with two suggestions (code that is right for everything accepted today but wrong for what it newly accepts; triggers that are quantities rather than shapes), round 12 for small boring commits (clippy-style rewrites, hoisted invariants, merged conditions, reordered statements, a changed default), round 13 concentrated on the properties whose checks had missed most often (C16 x4, C09 x4, C04 x4, C12 x3, C17 x2, C18 x2, each author with an assigned area), round 14 one more author for each of the other thirteen properties and two each for C04, C12 and C16 with briefs such as 'two cooperating fields', 'unbounded work', 'debug/release differences other than overflow', round 15 free-hand again with a preference for silent effects triggered by a combination of ordinary conditions, round 16 asked for whatever file, function, format field or accessor the earlier changes had not touched, round 17 for commits forced by a dependency or toolchain upgrade, an issue report or a tidy-up PR, round 18 for the public API surface (trait impls, protocols, derived values) and interactions between two features, round 19 for a value computed in two places that must agree, something wrong only for the second or later item of a kind, or a slip in reading two adjacent fields, round 20 for the exact edge of a documented range, a helper shared by two callers and right for one, or a fast path that skips a step, round 21 for something defined in one frame and touched again in a later one, width or sign conversions at accessor boundaries, or results right per item and wrong in aggregate), "
+ f"{init} were detected by the checks as they stood when the change arrived. {n - init - bydesign} were missed at first (two reported only as inconclusive) and each led to the strengthening named in the last column; "
  f"after those, {det} of {n} are detected by a quick tier (the owning property's, except where the last column names another property's check; rounds 1-3 also under VERIF_SEED=5). "
  f"{bydesign} (C07-c, C17-e and C02-t - the same idea from three independent authors -, C02-h, C10-h, C17-v, C03-w, C02-x and C13-l) are deliberately not detected: the first eight follow (or presuppose) the format more closely than the library does today, the last one only shows on a file outside C13's quantifier; none is a violation of the properties as stated.")
 s = s[:a] + "<!-- seeded-table-begin -->\n" + table + "\n<!-- seeded-table-end -->" + summary + tail
